@@ -227,7 +227,7 @@ func runC01(w *World, r *Report) {
 			}
 			bad := ""
 			n := 0
-			for _, o := range origins(x) {
+			for _, o := range originsLocal(x, 2) {
 				n++
 				ex, isEx := o.(*ssa.Extract)
 				if c, isNil := o.(*ssa.Const); isNil && c.Value == nil {
